@@ -2161,7 +2161,12 @@ func (r *Repository) createNewObjectPack(cfg *RepackConfig) (h plumbing.Hash, er
 	if err != nil {
 		return h, err
 	}
-	defer ioutil.CheckClose(wc, &err)
+	closed := false
+	defer func() {
+		if !closed {
+			ioutil.CheckClose(wc, &err)
+		}
+	}()
 	scfg, err := r.Config()
 	if err != nil {
 		return h, err
@@ -2169,6 +2174,14 @@ func (r *Repository) createNewObjectPack(cfg *RepackConfig) (h plumbing.Hash, er
 	enc := packfile.NewEncoder(wc, r.Storer, cfg.UseRefDeltas)
 	h, err = enc.Encode(objs, scfg.Pack.Window)
 	if err != nil {
+		return h, err
+	}
+
+	// Publish the pack (the writer renames it into place on Close)
+	// before any loose object is deleted: a crash in between must not
+	// leave references pointing at objects that exist nowhere.
+	closed = true
+	if err = wc.Close(); err != nil {
 		return h, err
 	}
 
